@@ -62,13 +62,15 @@ def run(tier):
     stats = {"trace_states": 0, "trace_records": 0, "samples": []}
 
     # D: exhaustive design check of the network the code contains
-    r = vlib.run_tlc("Morton", "MC_Morton.cfg", timeout=1200, data={"MortonConsts.tla": consts})
+    mcfg, mexp = ("MC_Morton.cfg", 17457) if tier == "quick" else ("MC_Morton_deep.cfg", 279841)   # deep: 3.64 M states, about a minute
+    r = vlib.run_tlc("Morton", mcfg, timeout=3600, data={"MortonConsts.tla": consts}, heap="3g" if tier == "quick" else "10g",
+                     gc="serial" if tier == "quick" else "parallel")
     design_ok = r.ok
     if not r.ok and not r.violated:
         raise Broken("MC_Morton: " + (r.error or "") + "\n" + r.out[-3000:])
     vecs = r.vecs
-    if design_ok and len(vecs) < 17000:
-        raise Broken("expected 17457 vectors from MC_Morton, got %d" % len(vecs))
+    if design_ok and len(vecs) < mexp:
+        raise Broken("expected %d vectors from %s, got %d" % (mexp, mcfg, len(vecs)))
 
     # R: every TLC vector through the real ToZ / FromZ
     replayed = 0
@@ -103,7 +105,7 @@ def run(tier):
         "traces_validated_against_impl": stats["trace_records"] + replayed,
         "samples": stats["samples"][:4],
         "exhaustive": True,
-        "design_model": "MC_Morton: all x with <=2 bits x all y with <=1 bit of 32; network constants %s"
+        "design_model": ("MC_Morton: all x with <=2 bits x all y with <=1 bit of 32" if tier == "quick" else "MC_Morton_deep: all x and all y with <=2 bits of 32") + "; network constants %s"
                         % ("extracted from morton.go" if extracted else "COMMITTED COPY (extraction failed)"),
         "vectors_replayed": replayed, "tlaps_obligations": obligations, "tlaps_proved": proved,
         "tlaps_module": "MortonProofs.tla: ShlLinear, ShrLinear, StageLinear, SqueezeLinear, CombineLinear, StageEmpty",
